@@ -116,13 +116,15 @@ theorem boot_wf : WF (World.boot : World σ ω) := by
   intro h; simp [World.boot, Native.boot] at h
 
 theorem nativeInit_cur (n : Native σ ω) (sc : Setup σ ω) :
-    cur (nativeInit n sc) = .live { cfg := sc.cfg, algo := sc.algo, sim := SimSt.init sc.algo sc.cfg sc.x0, size := sc.stateSize } ∧
+    cur (nativeInit n sc) = .live { cfg := sc.cfg, algo := sc.algo, sim := SimSt.init sc.algo sc.cfg sc.x0, size := sc.stateSize,
+                                    stepReturns := sc.stepReturns } ∧
     (nativeInit n sc).freed = false ∧ (nativeInit n sc).spaceType = sc.spaceType := by
   unfold nativeInit
   refine ⟨?_, rfl, ?_⟩
   · show cur { (setCur _ _) with freed := false } = _
     have := cur_setCur ({ n with spaceType := sc.spaceType } : Native σ ω)
-      (.live { cfg := sc.cfg, algo := sc.algo, sim := SimSt.init sc.algo sc.cfg sc.x0, size := sc.stateSize })
+      (.live { cfg := sc.cfg, algo := sc.algo, sim := SimSt.init sc.algo sc.cfg sc.x0, size := sc.stateSize,
+               stepReturns := sc.stepReturns })
     unfold cur at this ⊢
     simpa using this
   · show (setCur _ _).spaceType = _
@@ -214,14 +216,20 @@ theorem call_setup_raises (w : World σ ω) (o : Obj) (sc : Setup σ ω) (hc : w
     w.call o (.setup sc) = (w.setObj o { unfinished := true, script := some sc }, .raised) := by
   unfold call; simp [hc, hr]
 
-theorem call_setup_ok (w : World σ ω) (o : Obj) (sc : Setup σ ω) (hc : w.crashed = false) (hr : sc.raises = false) :
+theorem call_setup_ok (w : World σ ω) (o : Obj) (sc : Setup σ ω) (hc : w.crashed = false) (hr : sc.raises = false)
+    (hi : sc.initReturns = true) :
     w.call o (.setup sc) =
       ({ (w.setObj o { unfinished := true, script := some sc }) with
           native := nativeInit (w.setObj o { unfinished := true, script := some sc }).native sc }, .unit) := by
-  unfold call; simp [hc, hr]
+  unfold call; simp [hc, hr, hi]
+
+theorem call_setup_hangs (w : World σ ω) (o : Obj) (sc : Setup σ ω) (hc : w.crashed = false) (hr : sc.raises = false)
+    (hi : sc.initReturns = false) :
+    w.call o (.setup sc) = (w.setObj o { unfinished := true, script := some sc }).hangs := by
+  unfold call; simp [hc, hr, hi]
 
 theorem call_iterate (w : World σ ω) (o : Obj) (hc : w.crashed = false) :
-    w.call o .iterate = w.onSim (w.driveDead o) fun m => w.drive o m (SimSt.iterate m.algo m.cfg m.sim) := by
+    w.call o .iterate = w.onSim (w.driveDead o) fun m => w.driveIf o m (SimSt.iterate m.algo m.cfg m.sim) := by
   unfold call; simp [hc]
 
 theorem call_iterateN_nonpos (w : World σ ω) (o : Obj) (n : Int) (hc : w.crashed = false) (hn : n ≤ 0) :
@@ -229,11 +237,11 @@ theorem call_iterateN_nonpos (w : World σ ω) (o : Obj) (n : Int) (hc : w.crash
   unfold call; simp [hc, hn]
 
 theorem call_iterateN_pos (w : World σ ω) (o : Obj) (n : Int) (hc : w.crashed = false) (hn : ¬ n ≤ 0) :
-    w.call o (.iterateN n) = w.onSim (w.driveDead o) fun m => w.drive o m (SimSt.iterateN m.algo m.cfg n.toNat m.sim) := by
+    w.call o (.iterateN n) = w.onSim (w.driveDead o) fun m => w.driveIf o m (SimSt.iterateN m.algo m.cfg n.toNat m.sim) := by
   unfold call; simp [hc, hn]
 
 theorem call_run (w : World σ ω) (o : Obj) (k : Nat) (hc : w.crashed = false) :
-    w.call o (.run k) = w.onSim (w.driveDead o) fun m => w.drive o m (SimSt.run m.algo m.cfg k m.sim) := by
+    w.call o (.run k) = w.onSim (w.driveDead o) fun m => w.driveIf o m (SimSt.run m.algo m.cfg k m.sim) := by
   unfold call; simp [hc]
 
 theorem call_sample (w : World σ ω) (o : Obj) (hc : w.crashed = false) :
@@ -322,6 +330,17 @@ theorem outputOf_rel (w1 w2 : World σ ω) (m : NSim σ ω) (h : RelA w1 w2) :
       · rw [if_pos h2, if_pos h2]; exact ⟨rfl, relA_crash _ _ h⟩
       · rw [if_neg h2, if_neg h2]; exact ⟨rfl, h⟩
 
+theorem relA_hangs (w1 w2 : World σ ω) (h : RelA w1 w2) : RelA w1.hangs.1 w2.hangs.1 := by
+  obtain ⟨_, h2, h3, h4, h5⟩ := h
+  exact ⟨rfl, h2, h3, h4, h5⟩
+
+theorem relA_driveIf (w1 w2 : World σ ω) (m : NSim σ ω) (r : SimSt σ ω × Bool) (h : RelA w1 w2) :
+    (w1.driveIf .A m r).2 = (w2.driveIf .A m r).2 ∧ RelA (w1.driveIf .A m r).1 (w2.driveIf .A m r).1 := by
+  unfold driveIf
+  by_cases hs : m.stepReturns = true
+  · rw [if_pos hs, if_pos hs]; exact relA_drive w1 w2 m r h
+  · rw [if_neg hs, if_neg hs]; exact ⟨rfl, relA_hangs _ _ h⟩
+
 /-- a call on A gives the same answer in, and keeps, `RelA`-related worlds -/
 theorem call_rel (w1 w2 : World σ ω) (c : Call σ ω) (h : RelA w1 w2) :
     (w1.call .A c).2 = (w2.call .A c).2 ∧ RelA (w1.call .A c).1 (w2.call .A c).1 := by
@@ -339,7 +358,12 @@ theorem call_rel (w1 w2 : World σ ω) (c : Call σ ω) (h : RelA w1 w2) :
       · rw [call_setup_raises w1 _ _ hcr hr, call_setup_raises w2 _ _ hcr2 hr]
         exact ⟨rfl, relA_setObj _ _ _ hh⟩
       · simp only [Bool.not_eq_true] at hr
-        rw [call_setup_ok w1 _ _ hcr hr, call_setup_ok w2 _ _ hcr2 hr]
+        by_cases hi : sc.initReturns = true
+        swap
+        · simp only [Bool.not_eq_true] at hi
+          rw [call_setup_hangs w1 _ _ hcr hr hi, call_setup_hangs w2 _ _ hcr2 hr hi]
+          exact ⟨rfl, relA_hangs _ _ (relA_setObj _ _ _ hh)⟩
+        rw [call_setup_ok w1 _ _ hcr hr hi, call_setup_ok w2 _ _ hcr2 hr hi]
         refine ⟨rfl, hc, rfl, ?_, ?_, ?_⟩
         · show (nativeInit _ sc).spaceType = (nativeInit _ sc).spaceType
           rw [(nativeInit_cur _ sc).2.2, (nativeInit_cur _ sc).2.2]
@@ -349,16 +373,16 @@ theorem call_rel (w1 w2 : World σ ω) (c : Call σ ω) (h : RelA w1 w2) :
           rw [(nativeInit_cur _ sc).2.1, (nativeInit_cur _ sc).2.1]
     | iterate =>
       rw [call_iterate w1 _ hcr, call_iterate w2 _ hcr2]
-      exact onSim_rel w1 w2 _ _ _ _ hh (driveDead_rel w1 w2 hh) (fun m => relA_drive w1 w2 m _ hh)
+      exact onSim_rel w1 w2 _ _ _ _ hh (driveDead_rel w1 w2 hh) (fun m => relA_driveIf w1 w2 m _ hh)
     | iterateN n =>
       by_cases hn : n ≤ 0
       · rw [call_iterateN_nonpos w1 _ _ hcr hn, call_iterateN_nonpos w2 _ _ hcr2 hn, hoA]
         exact ⟨rfl, hh⟩
       · rw [call_iterateN_pos w1 _ _ hcr hn, call_iterateN_pos w2 _ _ hcr2 hn]
-        exact onSim_rel w1 w2 _ _ _ _ hh (driveDead_rel w1 w2 hh) (fun m => relA_drive w1 w2 m _ hh)
+        exact onSim_rel w1 w2 _ _ _ _ hh (driveDead_rel w1 w2 hh) (fun m => relA_driveIf w1 w2 m _ hh)
     | run k =>
       rw [call_run w1 _ _ hcr, call_run w2 _ _ hcr2]
-      exact onSim_rel w1 w2 _ _ _ _ hh (driveDead_rel w1 w2 hh) (fun m => relA_drive w1 w2 m _ hh)
+      exact onSim_rel w1 w2 _ _ _ _ hh (driveDead_rel w1 w2 hh) (fun m => relA_driveIf w1 w2 m _ hh)
     | sample =>
       rw [call_sample w1 _ hcr, call_sample w2 _ hcr2]
       exact onSim_rel w1 w2 _ _ _ _ hh ⟨rfl, hh⟩ (fun m => ⟨rfl, relA_putSim _ _ _ _ hh⟩)
@@ -407,8 +431,8 @@ theorem runHist_rel (h : List (Call σ ω)) (w1 w2 : World σ ω) (hr : RelA w1 
 
 /-- after a (non-raising) `setup` on A, any two non-crashed worlds are related -/
 theorem setup_rel (w1 w2 : World σ ω) (sc : Setup σ ω) (h1 : w1.crashed = false) (h2 : w2.crashed = false)
-    (hr : sc.raises = false) : RelA (w1.call .A (.setup sc)).1 (w2.call .A (.setup sc)).1 := by
-  rw [call_setup_ok w1 _ _ h1 hr, call_setup_ok w2 _ _ h2 hr]
+    (hr : sc.raises = false) (hi : sc.initReturns = true) : RelA (w1.call .A (.setup sc)).1 (w2.call .A (.setup sc)).1 := by
+  rw [call_setup_ok w1 _ _ h1 hr hi, call_setup_ok w2 _ _ h2 hr hi]
   refine ⟨?_, rfl, ?_, ?_, ?_⟩
   · show (w1.setObj .A { unfinished := true, script := some sc }).crashed = (w2.setObj .A { unfinished := true, script := some sc }).crashed
     rw [setObj_crashed, setObj_crashed, h1, h2]
@@ -422,10 +446,11 @@ theorem setup_rel (w1 w2 : World σ ω) (sc : Setup σ ω) (h1 : w1.crashed = fa
 
 /-! ### no call faults on one engine object; the reported status refers to the current simulation -/
 
-/-- histories of one engine object with valid scripts (marshalling does not raise): every call is allowed at
-any point (the entry points test `global_algo_freed`).  `some live'` = allowed, new liveness. -/
+/-- histories of one engine object with valid scripts (marshalling does not raise) that satisfy the two external
+assumptions (`initReturns`: the redistribution loop terminates; `stepReturns`: the Poisson calls return): every call is
+allowed at any point (the entry points test `global_algo_freed`).  `some live'` = allowed, new liveness. -/
 def stepLive (live : Bool) : Call σ ω → Option Bool
-  | .setup sc => if sc.raises then none else some true
+  | .setup sc => if sc.raises || !sc.initReturns || !sc.stepReturns then none else some true
   | .finalize => some false
   | _ => some live
 
@@ -436,23 +461,30 @@ def Respecting : Bool → List (Call σ ω) → Prop
 /-- invariant of single-object histories -/
 def Good (live : Bool) (w : World σ ω) : Prop :=
   w.crashed = false ∧
-  (live = true → w.native.freed = false ∧ ∃ m sc, cur w.native = .live m ∧ w.a.script = some sc ∧ m.size = sc.stateSize) ∧
+  (live = true → w.native.freed = false ∧ ∃ m sc, cur w.native = .live m ∧ w.a.script = some sc ∧ m.size = sc.stateSize ∧
+    m.stepReturns = true) ∧
   (live = false → w.native.freed = true) ∧
   (w.a.unfinished = false → w.native.freed = false → ∀ m, cur w.native = .live m → m.sim.complete = true)
+
+/-- the call came back with a value: neither a fault nor a hang -/
+def _root_.Strengths.Obs.returned (o : Obs ω) : Prop := o ≠ .fault ∧ o ≠ .hang
 
 theorem putSim_crashed (w : World σ ω) (m : NSim σ ω) (s : SimSt σ ω) : (w.putSim m s).crashed = w.crashed := rfl
 
 theorem drive_good (w : World σ ω) (m : NSim σ ω) (sc : Setup σ ω) (r : SimSt σ ω × Bool)
     (hg : Good true w) (hm : cur w.native = .live m) (hsc : w.a.script = some sc) (hsz : m.size = sc.stateSize)
+    (hsr : m.stepReturns = true)
     (hr : r.2 = false → r.1.complete = true) :
-    (w.drive .A m r).2 ≠ .fault ∧ Good true (w.drive .A m r).1 := by
+    (w.driveIf .A m r).2.returned ∧ Good true (w.driveIf .A m r).1 := by
   obtain ⟨hc, hl, _, _⟩ := hg
   obtain ⟨hf, _⟩ := hl rfl
+  unfold driveIf
+  rw [if_pos hsr]
   unfold drive
-  refine ⟨by simp, ?_, ?_, ?_, ?_⟩
+  refine ⟨⟨by simp, by simp⟩, ?_, ?_, ?_, ?_⟩
   · rw [setObj_crashed, putSim_crashed]; exact hc
   · intro _
-    refine ⟨by rw [setObj_native, putSim_freed]; exact hf, { m with sim := r.1 }, sc, ?_, ?_, hsz⟩
+    refine ⟨by rw [setObj_native, putSim_freed]; exact hf, { m with sim := r.1 }, sc, ?_, ?_, hsz, hsr⟩
     · rw [setObj_native, putSim_cur]
     · show ((w.putSim m r.1).obj .A).script = some sc
       exact hsc
@@ -476,23 +508,27 @@ theorem good_dead_setObj (w : World σ ω) (x : Wrapper σ ω) (hg : Good false 
     cases hf
 
 theorem good_step (live live' : Bool) (w : World σ ω) (c : Call σ ω) (hg : Good live w) (hs : stepLive live c = some live') :
-    (w.call .A c).2 ≠ .fault ∧ Good live' (w.call .A c).1 := by
+    (w.call .A c).2.returned ∧ Good live' (w.call .A c).1 := by
   have hgg := hg
   obtain ⟨hc, hl, hnl, hst⟩ := hg
   cases c with
   | setup sc =>
     unfold stepLive at hs
-    by_cases hr : sc.raises = true
-    · simp [hr] at hs
-    · simp only [Bool.not_eq_true] at hr
-      simp only [hr, Bool.false_eq_true, if_false, Option.some.injEq] at hs
+    by_cases hall : (sc.raises || !sc.initReturns || !sc.stepReturns) = true
+    · dsimp only at hs; rw [if_pos hall] at hs; cases hs
+    · dsimp only at hs
+      rw [if_neg hall] at hs
+      simp only [Option.some.injEq] at hs
       subst hs
-      rw [call_setup_ok w _ _ hc hr]
-      refine ⟨by simp, ?_, ?_, ?_, ?_⟩
+      have hr : sc.raises = false := by cases h : sc.raises <;> simp_all
+      have hi : sc.initReturns = true := by cases h : sc.initReturns <;> simp_all
+      have hsr : sc.stepReturns = true := by cases h : sc.stepReturns <;> simp_all
+      rw [call_setup_ok w _ _ hc hr hi]
+      refine ⟨⟨by simp, by simp⟩, ?_, ?_, ?_, ?_⟩
       · show (w.setObj .A { unfinished := true, script := some sc }).crashed = false
         rw [setObj_crashed]; exact hc
       · intro _
-        exact ⟨(nativeInit_cur _ sc).2.1, _, sc, (nativeInit_cur _ sc).1, rfl, rfl⟩
+        exact ⟨(nativeInit_cur _ sc).2.1, _, sc, (nativeInit_cur _ sc).1, rfl, rfl, hsr⟩
       · intro h; cases h
       · intro h; cases h
   | iterate =>
@@ -501,48 +537,48 @@ theorem good_step (live live' : Bool) (w : World σ ω) (c : Call σ ω) (hg : G
     cases live with
     | false =>
       rw [onSim_freed w _ _ (hnl rfl)]
-      exact ⟨by simp [driveDead], good_dead_setObj w _ hgg⟩
+      exact ⟨⟨by simp [driveDead], by simp [driveDead]⟩, good_dead_setObj w _ hgg⟩
     | true =>
-      obtain ⟨hf, m, sc, hm, hsc, hsz⟩ := hl rfl
+      obtain ⟨hf, m, sc, hm, hsc, hsz, hsr⟩ := hl rfl
       rw [onSim_live w _ _ m hf hm]
-      exact drive_good w m sc _ hgg hm hsc hsz (fun h => by
+      exact drive_good w m sc _ hgg hm hsc hsz hsr (fun h => by
         have := SimSt.iterate_snd m.algo m.cfg m.sim; rw [h] at this; simpa using this.symm)
   | iterateN n =>
     simp only [stepLive, Option.some.injEq] at hs; subst hs
     by_cases hn : n ≤ 0
     · rw [call_iterateN_nonpos w _ _ hc hn]
-      exact ⟨by simp, hgg⟩
+      exact ⟨⟨by simp, by simp⟩, hgg⟩
     · rw [call_iterateN_pos w _ _ hc hn]
       cases live with
       | false =>
         rw [onSim_freed w _ _ (hnl rfl)]
-        exact ⟨by simp [driveDead], good_dead_setObj w _ hgg⟩
+        exact ⟨⟨by simp [driveDead], by simp [driveDead]⟩, good_dead_setObj w _ hgg⟩
       | true =>
-        obtain ⟨hf, m, sc, hm, hsc, hsz⟩ := hl rfl
+        obtain ⟨hf, m, sc, hm, hsc, hsz, hsr⟩ := hl rfl
         rw [onSim_live w _ _ m hf hm]
-        exact drive_good w m sc _ hgg hm hsc hsz (SimSt.iterateN_false_complete m.algo m.cfg _ m.sim)
+        exact drive_good w m sc _ hgg hm hsc hsz hsr (SimSt.iterateN_false_complete m.algo m.cfg _ m.sim)
   | run k =>
     simp only [stepLive, Option.some.injEq] at hs; subst hs
     rw [call_run w _ _ hc]
     cases live with
     | false =>
       rw [onSim_freed w _ _ (hnl rfl)]
-      exact ⟨by simp [driveDead], good_dead_setObj w _ hgg⟩
+      exact ⟨⟨by simp [driveDead], by simp [driveDead]⟩, good_dead_setObj w _ hgg⟩
     | true =>
-      obtain ⟨hf, m, sc, hm, hsc, hsz⟩ := hl rfl
+      obtain ⟨hf, m, sc, hm, hsc, hsz, hsr⟩ := hl rfl
       rw [onSim_live w _ _ m hf hm]
-      exact drive_good w m sc _ hgg hm hsc hsz (SimSt.run_false_complete m.algo m.cfg _ m.sim)
+      exact drive_good w m sc _ hgg hm hsc hsz hsr (SimSt.run_false_complete m.algo m.cfg _ m.sim)
   | sample =>
     simp only [stepLive, Option.some.injEq] at hs; subst hs
     rw [call_sample w _ hc]
     cases live with
-    | false => rw [onSim_freed w _ _ (hnl rfl)]; exact ⟨by simp, hgg⟩
+    | false => rw [onSim_freed w _ _ (hnl rfl)]; exact ⟨⟨by simp, by simp⟩, hgg⟩
     | true =>
-      obtain ⟨hf, m, sc, hm, hsc, hsz⟩ := hl rfl
+      obtain ⟨hf, m, sc, hm, hsc, hsz, hsr⟩ := hl rfl
       rw [onSim_live w _ _ m hf hm]
-      refine ⟨by simp, hc, ?_, ?_, ?_⟩
+      refine ⟨⟨by simp, by simp⟩, hc, ?_, ?_, ?_⟩
       · intro _
-        exact ⟨by rw [putSim_freed]; exact hf, { m with sim := m.sim.sample m.algo }, sc, putSim_cur _ _ _, hsc, hsz⟩
+        exact ⟨by rw [putSim_freed]; exact hf, { m with sim := m.sim.sample m.algo }, sc, putSim_cur _ _ _, hsc, hsz, hsr⟩
       · intro h; cases h
       · intro hu _ m' hm'
         rw [putSim_cur] at hm'
@@ -553,15 +589,15 @@ theorem good_step (live live' : Bool) (w : World σ ω) (c : Call σ ω) (hg : G
     simp only [stepLive, Option.some.injEq] at hs; subst hs
     rw [call_getProgress w _ hc]
     cases live with
-    | false => rw [onSim_freed w _ _ (hnl rfl)]; exact ⟨by simp, hgg⟩
+    | false => rw [onSim_freed w _ _ (hnl rfl)]; exact ⟨⟨by simp, by simp⟩, hgg⟩
     | true =>
-      obtain ⟨hf, m, sc, hm, hsc, hsz⟩ := hl rfl
+      obtain ⟨hf, m, sc, hm, hsc, hsz, hsr⟩ := hl rfl
       rw [onSim_live w _ _ m hf hm]
-      exact ⟨by simp, hgg⟩
+      exact ⟨⟨by simp, by simp⟩, hgg⟩
   | isComplete =>
     simp only [stepLive, Option.some.injEq] at hs; subst hs
     rw [call_isComplete w _ hc]
-    exact ⟨by simp, hgg⟩
+    exact ⟨⟨by simp, by simp⟩, hgg⟩
   | getOutput =>
     simp only [stepLive, Option.some.injEq] at hs; subst hs
     rw [call_getOutput w _ hc]
@@ -570,34 +606,34 @@ theorem good_step (live live' : Bool) (w : World σ ω) (c : Call σ ω) (hg : G
       rw [onSim_freed w _ _ (hnl rfl)]
       unfold outputDead
       cases (w.obj .A).script with
-      | none => exact ⟨by simp, hgg⟩
-      | some sc => exact ⟨by simp, hgg⟩
+      | none => exact ⟨⟨by simp, by simp⟩, hgg⟩
+      | some sc => exact ⟨⟨by simp, by simp⟩, hgg⟩
     | true =>
-      obtain ⟨hf, m, sc, hm, hsc, hsz⟩ := hl rfl
+      obtain ⟨hf, m, sc, hm, hsc, hsz, hsr⟩ := hl rfl
       rw [onSim_live w _ _ m hf hm]
       unfold outputOf
       have : (w.obj .A).script = some sc := hsc
       rw [this]
       simp only [hsz, or_true, if_true]
-      exact ⟨by simp, hgg⟩
+      exact ⟨⟨by simp, by simp⟩, hgg⟩
   | finalize =>
     unfold stepLive at hs
     simp only [Option.some.injEq] at hs; subst hs
     cases live with
     | false =>
       rw [finalize_of_freed w _ (hnl rfl) hc]
-      exact ⟨by simp, hgg⟩
+      exact ⟨⟨by simp, by simp⟩, hgg⟩
     | true =>
-      obtain ⟨hf, m, sc, hm, hsc, hsz⟩ := hl rfl
+      obtain ⟨hf, m, sc, hm, hsc, hsz, hsr⟩ := hl rfl
       rw [call_finalize_live w _ m hc hf hm]
-      refine ⟨by simp, hc, ?_, ?_, ?_⟩
+      refine ⟨⟨by simp, by simp⟩, hc, ?_, ?_, ?_⟩
       · intro h; cases h
       · intro _; rfl
       · intro _ hfr; cases hfr
 
-/-- a history of calls on one engine object with valid scripts never faults -/
-theorem respecting_no_fault (h : List (Call σ ω)) (live : Bool) (w : World σ ω) (hg : Good live w) (hr : Respecting live h) :
-    ∀ ob ∈ (w.runHist (h.map fun c => (Obj.A, c))).2, ob ≠ Obs.fault := by
+/-- every call of a history on one engine object with valid scripts (under the two external assumptions) returns -/
+theorem respecting_returns (h : List (Call σ ω)) (live : Bool) (w : World σ ω) (hg : Good live w) (hr : Respecting live h) :
+    ∀ ob ∈ (w.runHist (h.map fun c => (Obj.A, c))).2, ob.returned := by
   induction h generalizing live w with
   | nil => intro ob hob; simp [runHist] at hob
   | cons c rest ih =>
@@ -608,6 +644,10 @@ theorem respecting_no_fault (h : List (Call σ ω)) (live : Bool) (w : World σ 
     rcases hob with hob | hob
     · rw [hob]; exact h1
     · exact ih live' _ h2 hrest ob hob
+
+theorem respecting_no_fault (h : List (Call σ ω)) (live : Bool) (w : World σ ω) (hg : Good live w) (hr : Respecting live h) :
+    ∀ ob ∈ (w.runHist (h.map fun c => (Obj.A, c))).2, ob ≠ Obs.fault :=
+  fun ob hob => (respecting_returns h live w hg hr ob hob).1
 
 theorem boot_good : Good false (World.boot : World σ ω) := by
   refine ⟨rfl, ?_, fun _ => rfl, ?_⟩
